@@ -509,7 +509,8 @@ pub(crate) async fn exec_model_trace(t: Trace, prop: &'static str) -> Outcome {
                 for d in discs.iter_mut() {
                     let is_probe_reply = d.exp.as_deref().or(d.obs.as_deref()).map_or(false, |l| {
                         let h = head_of(l);
-                        h.len() == 3 && h.bytes().all(|b| b.is_ascii_digit()) && !matches!(h.as_str(), "451" | "461" | "421")
+                        (h.len() == 3 && h.bytes().all(|b| b.is_ascii_digit()) && !matches!(h.as_str(), "451" | "461" | "421"))
+                            || matches!(h.as_str(), "WALLOPS" | "PRIVMSG" | "NOTICE" | "JOIN" | "PART" | "KICK" | "TOPIC" | "MODE" | "INVITE")
                     });
                     if !is_probe_reply || d.props == 0 {
                         continue;
@@ -525,9 +526,17 @@ pub(crate) async fn exec_model_trace(t: Trace, prop: &'static str) -> Outcome {
                         "254" => P19 | P06 | P16,
                         "311" | "312" | "317" | "318" | "314" | "369" | "406" | "401" | "433" => P06 | P15 | P02,
                         "403" | "442" | "441" | "443" | "473" | "341" => P06 | P16 | P15 | P09,
+                        // relayed lines that reach (or miss) somebody whose identity changed recently
+                        "WALLOPS" => P15 | P11 | P06,
+                        "PRIVMSG" | "NOTICE" => P15 | P06 | P02,
+                        "JOIN" | "PART" | "KICK" | "TOPIC" | "MODE" | "INVITE" => P15 | P06,
                         _ => 0,
                     };
                     let mut text = format!("{} {}", d.exp.clone().unwrap_or_default(), d.obs.clone().unwrap_or_default());
+                    if !h.bytes().all(|b| b.is_ascii_digit()) {
+                        // for relays only the receiving user's own recent history counts
+                        text = m.conns.get(d.c).and_then(|x| x.nick.clone()).unwrap_or_default();
+                    }
                     if matches!(h.as_str(), "251" | "252" | "254" | "255" | "265" | "266") {
                         // global counters: any recent change of the user/channel population may be the cause
                         for (k, (_, at)) in dirty.iter() {
